@@ -313,3 +313,35 @@ fn replay_fees_update_quiet(pre: &World, post: &World, d: &Dep, mi: usize, price
 pub fn prices_equal(a: &Prices<u128>, b: &Prices<u128>) -> bool {
     price_eq(&a.index_token_price, &b.index_token_price) && price_eq(&a.long_token_price, &b.long_token_price) && price_eq(&a.short_token_price, &b.short_token_price)
 }
+
+/// C09 reference (evaluated at a different call site than the one under test, on the SDK's model of the
+/// same account bytes): is the position liquidatable at these prices once the fee state is brought up to the
+/// chain time (by the program's own update_fees_state on a fork)? `None` if the SDK model cannot be built.
+pub fn sdk_liquidatable(w: &World, d: &Dep, mi: usize, position: &Pubkey, prices: &Prices<u128>, for_liquidation: bool) -> Option<bool> {
+    use gmsol_model::PositionExt;
+    use gmsol_programs::gmsol_store::accounts::Position as SdkPosition;
+    use gmsol_programs::model::PositionModel;
+    let mk = &d.markets[mi];
+    // Bring the market's fee state (impact distribution, borrowing, funding) up to the chain time with the
+    // program's own `update_fees_state` on a fork: the SDK model cannot update the borrowing state itself.
+    let mut f = w.clone();
+    let out = f.process(chainsim::ex::update_fees_state_ix(d, mk));
+    if !out.ok {
+        return None;
+    }
+    let sdk = sdk_model(&f, &mk.market, &mk.market_token)?;
+    gmsol_programs::model::verif_set_now(Some(w.clock.unix_timestamp));
+    let data = w.data(position)?;
+    let n = std::mem::size_of::<SdkPosition>();
+    if data.len() < 8 + n {
+        return None;
+    }
+    let p: SdkPosition = bytemuck::pod_read_unaligned(&data[8..8 + n]);
+    let pm = PositionModel::new(sdk, Arc::new(p)).ok()?;
+    let r = pm.check_liquidatable(prices, true, for_liquidation);
+    if std::env::var_os("GMXSIM_DEBUG").is_some() {
+        use gmsol_model::PositionState;
+        eprintln!("sdk_liquidatable: for_liq={for_liquidation} result={r:?} size_usd={} size_tokens={} collateral={} prices={prices:?} pnl={:?} collateral_value={:?}", pm.size_in_usd(), pm.size_in_tokens(), pm.collateral_amount(), pm.pnl_value(prices, pm.size_in_usd()), pm.collateral_value(prices));
+    }
+    r.ok().map(|r| r.is_some())
+}
